@@ -931,6 +931,25 @@ func (w *walker) instr(s *wstate, b *ssa.BasicBlock, in ssa.Instruction) {
 					s.env[in] = v
 					return
 				}
+				if a.Parent() != in.Parent() {
+					// ... or of the function that created the closure under analysis: everything ever stored there
+					s.env[in] = w.refine(s, AV{T: w.tb.cellValue(a)})
+					return
+				}
+			}
+			if fa, ok := in.X.(*ssa.FieldAddr); ok {
+				// a field of a local record whose whole value is known on this path (a value receiver spilled to a
+				// cell, a record that carries what a closure used to capture)
+				if a, isA := fa.X.(*ssa.Alloc); isA {
+					whole, known := s.mem[a]
+					if !known {
+						whole, known = s.heap[tv(a).String()]
+					}
+					if known && whole.T != nil && whole.T.Op == "struct" && fa.Field < len(whole.T.Args) {
+						s.env[in] = w.refine(s, AV{T: whole.T.Args[fa.Field]})
+						return
+					}
+				}
 			}
 			var t *Term
 			switch at.Op {
@@ -1182,4 +1201,31 @@ func (w *walker) generic(s *wstate, v ssa.Value) *Term {
 	}
 	t.V, t.Typ = v, v.Type()
 	return t
+}
+
+
+// regClosure: the function literal (or bound method value) stored by a map update, through conversions and boxing.
+func regClosure(mu *ssa.MapUpdate) *ssa.MakeClosure {
+	if mu == nil {
+		return nil
+	}
+	mc, _ := stripBox(mu.Value).(*ssa.MakeClosure)
+	return mc
+}
+
+// bindFreeVars: the captured variables of the closure created at mc, bound to the creating function's terms, so that
+// the closure's body (and the methods a bound method value leads to) speaks of the creator's own values.
+func bindFreeVars(mc *ssa.MakeClosure) map[ssa.Value]AV {
+	if mc == nil {
+		return nil
+	}
+	fn := mc.Fn.(*ssa.Function)
+	ctb := NewTB()
+	out := map[ssa.Value]AV{}
+	for i, fv := range fn.FreeVars {
+		if i < len(mc.Bindings) {
+			out[fv] = AV{T: ctb.Of(mc.Bindings[i])}
+		}
+	}
+	return out
 }
